@@ -82,7 +82,7 @@ package cache
 
 // the constructor pins the statement's 5% jitter
 //@ func NewNode
-//@   property C06
+//@   property C06 C07
 //@   float real
 //@   call NewUnstable#0: assert arg_deviation == 0.05
 // a new node is built from its arguments and touches nothing that exists
@@ -191,3 +191,9 @@ package cache
 //@   loop 0: invariant dispatcher != nil && hash.addReady(dispatcher)
 //@   ensures implies(len(c) != 1, typeIs(result, cacheCluster) && result.(cacheCluster).errNotFound == errNotFound && result.(cacheCluster).dispatcher != nil)
 //@   allocates
+
+// the background retry of a failed invalidation is NOT tied to the request that triggered it: it deletes through the
+// context-free entry point (a retry running under the writer's long-gone request context would fail for ever)
+//@ func (c cacheNode) asyncRetryDelCache closure 0
+//@   property C06
+//@   call Del#0: assert sameSlice(arg_keys, keys) && arg_recv == c.rds
